@@ -189,15 +189,8 @@ func checkC03(c *Ctx) {
 		}
 		// R3: same block writes Attempt+1, LeaseID fresh, LeaseUntil = now.Add(ttl)
 		var attOK, idOK, untilOK bool
-		for _, ins := range st.Block().Instrs {
-			s2, ok := ins.(*ssa.Store)
-			if !ok {
-				continue
-			}
-			fa, ok := s2.Addr.(*ssa.FieldAddr)
-			if !ok || fa.X != ptr {
-				continue
-			}
+		for _, s2 := range companionStores(st, ptr) {
+			fa := s2.Addr.(*ssa.FieldAddr)
 			_, fname, _ := fieldAddrName(fa)
 			switch fname {
 			case "Attempt":
@@ -207,10 +200,8 @@ func checkC03(c *Ctx) {
 					}
 				}
 			case "LeaseID":
-				if call, ok := s2.Val.(*ssa.Call); ok {
-					if f := call.Call.StaticCallee(); f != nil && p.FuncReaches(f, isCryptoRand, map[*ssa.Function]bool{}) {
-						idOK = true
-					}
+				if p.derivesFromCall(s2.Val, isCryptoRand, map[ssa.Value]bool{}, 0) {
+					idOK = true
 				}
 			case "LeaseUntil":
 				if call, ok := s2.Val.(*ssa.Call); ok && calleeIs(call, "time", "Time", "Add") {
@@ -551,4 +542,143 @@ func checkLeaseCleared(c *Ctx, rule string, rootFilter func(string) bool) {
 	if rootFilter == nil {
 		c.Floor(rule, "constructs_leaving_leased", n, 20)
 	}
+}
+
+// companionStores: the stores through the same record pointer that always execute together with st — each is in a
+// block that dominates st's block or is dominated by it with no branch that could skip it (same block, or a chain
+// of single-successor blocks), in either order.
+func companionStores(st *ssa.Store, ptr ssa.Value) []*ssa.Store {
+	var out []*ssa.Store
+	fn := st.Parent()
+	alwaysTogether := func(a, b *ssa.BasicBlock) bool {
+		if a == b {
+			return true
+		}
+		// a dominates b and b post-dominates a within straight-line/forward flow: every path from a reaches b
+		// before leaving the function or returning to a (approximated: b reachable, and no path from a to an
+		// exit or back to a that avoids b)
+		if !a.Dominates(b) {
+			return false
+		}
+		seen := map[*ssa.BasicBlock]bool{a: true}
+		work := append([]*ssa.BasicBlock(nil), a.Succs...)
+		for len(work) > 0 {
+			x := work[len(work)-1]
+			work = work[:len(work)-1]
+			if x == b || seen[x] {
+				if x == a {
+					return false
+				}
+				continue
+			}
+			seen[x] = true
+			if len(x.Succs) == 0 {
+				// a path ends without b: acceptable only when it is a panic/error exit? be strict
+				if _, isRet := x.Instrs[len(x.Instrs)-1].(*ssa.Return); isRet {
+					return false
+				}
+				continue
+			}
+			for _, s := range x.Succs {
+				if s == a {
+					return false
+				}
+				work = append(work, s)
+			}
+		}
+		return true
+	}
+	for _, b := range fn.Blocks {
+		for _, ins := range b.Instrs {
+			s2, ok := ins.(*ssa.Store)
+			if !ok {
+				continue
+			}
+			fa, ok := s2.Addr.(*ssa.FieldAddr)
+			if !ok || fa.X != ptr {
+				continue
+			}
+			if alwaysTogether(b, st.Block()) || alwaysTogether(st.Block(), b) {
+				out = append(out, s2)
+			}
+		}
+	}
+	return out
+}
+
+// derivesFromCall: v is computed from the result (or an out-parameter buffer) of a call that satisfies pred,
+// directly or through callees.
+func (p *Program) derivesFromCall(v ssa.Value, pred func(ssa.CallInstruction) bool, seen map[ssa.Value]bool, depth int) bool {
+	if v == nil || seen[v] || depth > 12 {
+		return false
+	}
+	seen[v] = true
+	hit := func(ci ssa.CallInstruction) bool {
+		if pred(ci) {
+			return true
+		}
+		if f := ci.Common().StaticCallee(); f != nil && p.FuncReaches(f, pred, map[*ssa.Function]bool{}) {
+			return true
+		}
+		return false
+	}
+	// a buffer filled by such a call
+	bufferFilled := func(buf ssa.Value) bool {
+		if buf.Referrers() == nil {
+			return false
+		}
+		for _, ref := range *buf.Referrers() {
+			switch r := ref.(type) {
+			case ssa.CallInstruction:
+				if hit(r) {
+					return true
+				}
+			case *ssa.Slice:
+				for _, r2 := range *r.Referrers() {
+					if ci, ok := r2.(ssa.CallInstruction); ok && hit(ci) {
+						return true
+					}
+				}
+			}
+		}
+		return false
+	}
+	switch x := v.(type) {
+	case *ssa.Call:
+		if hit(x) {
+			return true
+		}
+		for _, a := range x.Call.Args {
+			if p.derivesFromCall(a, pred, seen, depth+1) {
+				return true
+			}
+		}
+	case *ssa.Alloc:
+		return bufferFilled(x)
+	case *ssa.MakeSlice:
+		return bufferFilled(x)
+	case *ssa.Slice:
+		return bufferFilled(x) || p.derivesFromCall(x.X, pred, seen, depth+1)
+	case *ssa.Phi:
+		for _, e := range x.Edges {
+			if p.derivesFromCall(e, pred, seen, depth+1) {
+				return true
+			}
+		}
+	case *ssa.UnOp:
+		return p.derivesFromCall(x.X, pred, seen, depth+1)
+	case *ssa.Extract:
+		return p.derivesFromCall(x.Tuple, pred, seen, depth+1)
+	case *ssa.Convert:
+		return p.derivesFromCall(x.X, pred, seen, depth+1)
+	case *ssa.ChangeType:
+		return p.derivesFromCall(x.X, pred, seen, depth+1)
+	case *ssa.BinOp:
+		return p.derivesFromCall(x.X, pred, seen, depth+1) || p.derivesFromCall(x.Y, pred, seen, depth+1)
+	case *ssa.IndexAddr:
+		return p.derivesFromCall(x.X, pred, seen, depth+1)
+	case *ssa.FieldAddr:
+		return p.derivesFromCall(x.X, pred, seen, depth+1)
+	}
+	return false
 }
